@@ -15,7 +15,11 @@ VERIF = os.path.dirname(HERE)
 def main():
     claims = json.load(open(os.path.join(HERE, "claims.json")))
     served = {}
+    enp = os.path.join(VERIF, "units", "ENABLED")
+    en = {l.strip() for l in open(enp) if l.strip() and not l.startswith("#")} if os.path.exists(enp) else None
     for p in sorted(glob.glob(os.path.join(VERIF, "units", "*", "unit.toml"))):
+        if en is not None and os.path.basename(os.path.dirname(p)) not in en:
+            continue
         cfg = tomllib.load(open(p, "rb"))
         for pr in cfg.get("unit", {}).get("properties", []):
             served.setdefault(pr, []).append(os.path.basename(os.path.dirname(p)))
